@@ -192,6 +192,5 @@ def forwarding(chk, tier, wd):
 
 
 def replay(spec):
-    import json
-    print(json.dumps(spec, indent=1)[:6000])
-    return 0
+    from checks import lp
+    return lp.replay_case(spec)
